@@ -887,10 +887,7 @@ class t2listing(object):
         while tablename:
             if tablename in self.skip_tables: self.skip_table(tablename)
             elif tablename in self._table: self.read_table(tablename)
-            else: # tables not present at first time step
-                next_tablename = self.next_tablename(last_tablename)
-                if next_tablename:
-                    self.skip_to_table(next_tablename, last_tablename, 1)
+            else: self.skip_table(tablename) # tables not present at first time step
             last_tablename = tablename
             tablename = self.next_table()
 
